@@ -1,5 +1,6 @@
 (* C03 tie T: leaf functions regenerated from the current source (coq/gen/Gen_C03.v, tools/cxx2v.py) equal the model leafs *)
-From CppcmsV Require Import Base.Tac Base.CSem Base.CSemFacts C03.Defs gen.Gen_C03 gen.Gen_C03_fcgi gen.Gen_C03_sock gen.Gen_C03_copybuf.
+From CppcmsV Require Import Base.Tac Base.CSem Base.CSemFacts C03.Defs gen.Gen_C03 gen.Gen_C03_fcgi gen.Gen_C03_sock gen.Gen_C03_copybuf gen.Gen_C03_ovf gen.Gen_C03_cmp gen.Gen_C03_lower.
+From CppcmsV Require Import Base.Sweep.
 Local Open Scope N_scope.
 
 (* async_io_buf::next_size (growth policy of the fully buffered asynchronous device), for all sizes below 2^63 *)
@@ -46,3 +47,55 @@ Proof.
 Qed.
 Lemma link_cb_getstr_assign n bsize : g_cb_getstr_off n bsize = 0%Z /\ g_cb_getstr_len n bsize = n.
 Proof. split; reflexivity. Qed.
+
+(* overflow(int c) of basic_device and (full buffering) async_io_buf: for every byte value as int the guard of the current source
+   holds and the byte appended is that value; for EOF it does not hold *)
+Lemma link_ovf_byte b : b < 256 ->
+  g_ovf_guard (to_int_type b) = 1%Z /\ g_ovf_byte (to_int_type b) = Z.of_N (ovf_byte (to_int_type b)) /\ g_aovf_guard (to_int_type b) = 1%Z /\
+  ovf_guard (to_int_type b) = true.
+Proof.
+  intros H.
+  assert (X : ((g_ovf_guard (Z.of_N b) =? 1)%Z && (g_ovf_byte (Z.of_N b) =? Z.of_N (ovf_byte (Z.of_N b)))%Z &&
+               (g_aovf_guard (Z.of_N b) =? 1)%Z && ovf_guard (Z.of_N b)) = true).
+  { apply (sweep256 (fun b => ((g_ovf_guard (Z.of_N b) =? 1)%Z && (g_ovf_byte (Z.of_N b) =? Z.of_N (ovf_byte (Z.of_N b)))%Z &&
+               (g_aovf_guard (Z.of_N b) =? 1)%Z && ovf_guard (Z.of_N b)))); [vm_compute; reflexivity|exact H]. }
+  unfold to_int_type. apply andb_prop in X. destruct X as [X X4]. apply andb_prop in X. destruct X as [X X3].
+  apply andb_prop in X. destruct X as [X1 X2]. apply Z.eqb_eq in X1, X2, X3. auto.
+Qed.
+Lemma link_ovf_eof : g_ovf_guard EOF_INT = 0%Z /\ g_aovf_guard EOF_INT = 0%Z /\ ovf_guard EOF_INT = false.
+Proof. vm_compute. auto. Qed.
+
+(* the comparator of the header map: ascii_to_lower, one step of the loop of protocol::compare, its tail (the length tie-break)
+   and icompare_type::operator() = (compare(l, r) < 0) *)
+Lemma link_lower b : b < 128 -> g_ascii_to_lower (Z.of_N b) = Z.of_N (lower b).
+Proof.
+  intros H. apply Z.eqb_eq.
+  apply (sweep_N 128 (fun b => (g_ascii_to_lower (Z.of_N b) =? Z.of_N (lower b))%Z)); [vm_compute; reflexivity|exact H].
+Qed.
+Lemma link_cmp_step a b : g_cmp_step (Z.of_N a) (Z.of_N b) = if a <? b then (-1)%Z else if b <? a then 1%Z else 2%Z.
+Proof.
+  unfold g_cmp_step. destruct (N.ltb_spec a b) as [L|L].
+  - assert (E : (Z.of_N a <? Z.of_N b)%Z = true) by (apply Z.ltb_lt; lia). now rewrite E.
+  - assert (E : (Z.of_N a <? Z.of_N b)%Z = false) by (apply Z.ltb_ge; lia). rewrite E.
+    destruct (N.ltb_spec b a) as [M|M].
+    + assert (E2 : (Z.of_N a >? Z.of_N b)%Z = true) by (apply Z.gtb_lt; lia). now rewrite E2.
+    + assert (E2 : (Z.of_N a >? Z.of_N b)%Z = false) by (rewrite Z.gtb_ltb; apply Z.ltb_ge; lia). now rewrite E2.
+Qed.
+(* the tail decides by length exactly like ci_compare on exhausted inputs: shorter first *)
+Lemma link_cmp_tail (a b : bytes) : (a = [] \/ b = []) -> g_cmp_tail (Z.of_N (lenN a)) (Z.of_N (lenN b)) = compare_int a b.
+Proof.
+  intros H. unfold g_cmp_tail, compare_int, lenN. destruct H as [-> | ->].
+  - destruct b as [|y b]; cbn [ci_compare length]; [reflexivity|].
+    destruct (Z.ltb_spec (Z.of_N (N.of_nat 0)) (Z.of_N (N.of_nat (S (length b))))); [reflexivity|lia].
+  - destruct a as [|x a]; cbn [ci_compare length]; [reflexivity|].
+    destruct (Z.ltb_spec (Z.of_N (N.of_nat (S (length a)))) (Z.of_N (N.of_nat 0))); [lia|].
+    rewrite Z.gtb_ltb. destruct (Z.ltb_spec (Z.of_N (N.of_nat 0)) (Z.of_N (N.of_nat (S (length a))))); [reflexivity|lia].
+Qed.
+Lemma link_icompare a b : (g_icmp_less (compare_int a b) =? 1)%Z = icompare_less a b.
+Proof. unfold g_icmp_less, icompare_less. destruct (compare_int a b <? 0)%Z; reflexivity. Qed.
+Lemma link_comparator :
+  (forall b, b < 128 -> g_ascii_to_lower (Z.of_N b) = Z.of_N (lower b)) /\
+  (forall a b, g_cmp_step (Z.of_N a) (Z.of_N b) = if a <? b then (-1)%Z else if b <? a then 1%Z else 2%Z) /\
+  (forall a b : bytes, (a = [] \/ b = []) -> g_cmp_tail (Z.of_N (lenN a)) (Z.of_N (lenN b)) = compare_int a b) /\
+  (forall a b, (g_icmp_less (compare_int a b) =? 1)%Z = icompare_less a b).
+Proof. split; [exact link_lower|]. split; [exact link_cmp_step|]. split; [exact link_cmp_tail|exact link_icompare]. Qed.
